@@ -209,6 +209,43 @@ def run(check, repo: Repo) -> None:
     check.decide(fin == ["torch.cat(patch_indices_list, dim=0)"] or (len(fin) == 1 and ok), "C02-R3", "_set_patch_indices: chunks are concatenated in scan order", str(fin), dmod.line(spi),
                  fail_detail=str(fin))
 
+    # ---- R11 a potential is turned into a transmission function exactly once (coupled) ---------------------------------------------------------
+    # exp(i·V) sites along ObjectPixelated.forward → ObjectBase._get_obj_patches.  A site gated by the array's dtype (`not x.is_complex()`) cannot fire on an already
+    # converted (complex) array; a site gated by the object TYPE fires regardless.  Two type-gated sites — or a type-gated producer in front of a consumer whose
+    # gate also names the type — exponentiate twice: exp(i·exp(iV)).
+    omod_, gop_ = repo.func(f"{OMD}:ObjectBase._get_obj_patches")
+    _om2, ofw_ = repo.func(f"{OMD}:ObjectPixelated.forward")
+    check.analysed(f"{OMD}:ObjectBase._get_obj_patches", f"{OMD}:ObjectPixelated.forward")
+
+    def _exp_sites(fn_):
+        out = []
+        for c_ in calls_in(fn_):
+            if (call_name(c_) or "").split(".")[-1] == "exp" and c_.args and any(isinstance(x_, ast.Constant) and isinstance(x_.value, complex) for x_ in ast.walk(c_.args[0])):
+                from ..core.repo import parent as _parent
+                cur, gates = c_, []
+                while cur is not fn_ and cur is not None:
+                    par = _parent(cur)
+                    if isinstance(par, ast.If) and any(cur is b_ or any(cur is y_ for y_ in ast.walk(b_)) for b_ in par.body):
+                        gates.append(unparse(par.test))
+                    cur = par
+                out.append((c_, gates))
+        return out
+    s_fw, s_gp = _exp_sites(ofw_), _exp_sites(gop_)
+    check.floor("exp(i·V) sites on the patch path", len(s_fw) + len(s_gp), 1)
+    type_gated = lambda gates: any("obj_type" in g_ and "potential" in g_ for g_ in gates)
+    dtype_only = lambda gates: bool(gates) and all("is_complex" in g_ and "obj_type" not in g_ for g_ in gates)
+    fw_fires = [c_ for c_, g_ in s_fw if type_gated(g_) or not g_]
+    gp_fires_on_complex = [c_ for c_, g_ in s_gp if not dtype_only(g_)]
+    key11 = "potential objects: exp(i·V) is applied exactly once between the stored object and the patches"
+    if fw_fires and gp_fires_on_complex:
+        check.violated("C02-R11", key11, f"ObjectPixelated.forward converts (`{unparse(fw_fires[0])[:40]}`) and ObjectBase._get_obj_patches converts again under "
+                       f"`{(s_gp[0][1] or ['no gate'])[0][:60]}`, which is true for a potential whatever its dtype: the patches are exp(i·exp(iV)) — the forward model no longer "
+                       f"reproduces data simulated from the potential", omod_.line(gp_fires_on_complex[0]), definite=True)
+    elif (s_fw or s_gp) and all(type_gated(g_) or dtype_only(g_) or not g_ for _c, g_ in s_fw + s_gp):
+        check.holds("C02-R11", key11, f"forward: {len(s_fw)} site(s), _get_obj_patches: {len(s_gp)} site(s); at most one can fire on a given array", omod_.line(gop_))
+    else:
+        raise AnalysisError("potential → transmission conversion: gating of an exp(i·V) site not recognised")
+
     # ---- R5 rounding agreement --------------------------------------------------------------------------------------------
     rounders = []
     for label, fn in (("_set_patch_indices", spi), ("patch_indices_need_update", pinu), ("forward", dfw)):
